@@ -24,7 +24,11 @@ the real code by the correspondence run):
 namespace S3V.C19
 open S3V S3V.FsWrite
 
-/-- the conclusion of all-or-nothing for `put_object` at fault position `k` -/
+/-- the conclusion of all-or-nothing for `put_object` at fault position `k` (= the request future is dropped, or
+    the call returns an error, after `k` steps of the program
+    `create, adopt, frame₁ … frameₙ, flush, check, mkdirs, rename, [saveMeta], saveInfo`).
+    The positions inside `FileWriter::done()` are explicit: `k = n + 4` — `done()` entered, nothing awaited yet;
+    `k = n + 5` — `create_dir_all(parent)` finished, rename not yet issued; `k = n + 6` — rename done. -/
 def AllOrNothingAt (c : Cfg) (old : Option Bytes) (m i : Side) (k : Nat) : Prop :=
   let s := dropAfter k (putObjectProg c) (initSt old m i)
   s.tmp = false ∧
@@ -41,7 +45,8 @@ def DropAtCreate (k : Nat) : Prop := k = 1
 instance (k : Nat) : Decidable (DropAtCreate k) := inferInstanceAs (Decidable (k = 1))
 
 /-- **All-or-nothing for `put_object`.** For every body, every previous state and every fault position other than
-    `DropAtCreate`: no temporary file remains; the destination holds the previous content or — only if no body
+    `DropAtCreate` — in particular at every position inside `done()`, and whether `create_dir_all` / `rename`
+    succeed or fail (`c.mkdirsFails`, `c.renameFails` are arbitrary) —: no temporary file remains; the destination holds the previous content or — only if no body
     item was an error — all body bytes in order; and at every position up to and including the last step before
     the rename (`k ≤ n + 5`) it still holds the previous content. -/
 theorem C19_write_all_or_nothing_partial (c : Cfg) (old : Option Bytes) (m i : Side) (k : Nat)
@@ -49,7 +54,7 @@ theorem C19_write_all_or_nothing_partial (c : Cfg) (old : Option Bytes) (m i : S
   unfold AllOrNothingAt
   simp only [dropAfter_eq, putObjectProg_eq]
   rcases create_adopt_then (rest := c.frames.map .frame ++
-      ([.flush, .check c.checksumsEqual, .mkdirs, .rename c.renameFails] ++
+      ([.flush, .check c.checksumsEqual, .mkdirs c.mkdirsFails, .rename c.renameFails] ++
         (if c.hasMeta then [.saveMeta c.metaFails] else []) ++ [.saveInfo c.infoFails]))
       (s := initSt old m i) ⟨rfl, rfl⟩ k hk with ⟨_, h⟩ | ⟨k', rfl, h⟩
   · rw [h]; simp [initSt]
@@ -69,7 +74,7 @@ theorem C19_sidefiles_never_ahead (c : Cfg) (old : Option Bytes) (m i : Side) (k
     (s.mdata ≠ m ∨ s.info ≠ i) → ∃ all, allBytes c.frames = some all ∧ s.dest = some all := by
   simp only [dropAfter_eq, putObjectProg_eq]
   rcases create_adopt_then (rest := c.frames.map .frame ++
-      ([.flush, .check c.checksumsEqual, .mkdirs, .rename c.renameFails] ++
+      ([.flush, .check c.checksumsEqual, .mkdirs c.mkdirsFails, .rename c.renameFails] ++
         (if c.hasMeta then [.saveMeta c.metaFails] else []) ++ [.saveInfo c.infoFails]))
       (s := initSt old m i) ⟨rfl, rfl⟩ k hk with ⟨_, h⟩ | ⟨k', rfl, h⟩
   · rw [h]; simp [initSt]
@@ -81,10 +86,11 @@ theorem C19_sidefiles_never_ahead (c : Cfg) (old : Option Bytes) (m i : Side) (k
     exact ⟨all, ha, by simpa [initSt] using h5⟩
 
 /-- **A failed or rejected upload changes nothing (`put_object`).** If a body item is an error (transport error,
-    chunk-signature error — both arrive as `Err` items), or the checksums differ, or the rename fails, the call
+    chunk-signature error — both arrive as `Err` items), or the checksums differ, or `done()` fails at either of
+    its two steps (`create_dir_all` of the parent, the rename), the call
     answers an error and destination, metadata, checksum record are exactly as before, with no temporary file. -/
 theorem C19_failed_upload_changes_nothing (c : Cfg) (old : Option Bytes) (m i : Side)
-    (h : allBytes c.frames = none ∨ c.checksumsEqual = false ∨ c.renameFails = true) :
+    (h : allBytes c.frames = none ∨ c.checksumsEqual = false ∨ c.mkdirsFails = true ∨ c.renameFails = true) :
     (run (putObjectProg c) (initSt old m i)).1 ≠ .ok ∧
     (run (putObjectProg c) (initSt old m i)).2.dest = old ∧
     (run (putObjectProg c) (initSt old m i)).2.tmp = false ∧
@@ -93,25 +99,27 @@ theorem C19_failed_upload_changes_nothing (c : Cfg) (old : Option Bytes) (m i : 
   rw [putObjectProg_eq]
   simp only [run, exec]
   obtain ⟨p, a, hr⟩ := run_frames c.frames
-    ([.flush, .check c.checksumsEqual, .mkdirs, .rename c.renameFails] ++
+    ([.flush, .check c.checksumsEqual, .mkdirs c.mkdirsFails, .rename c.renameFails] ++
       (if c.hasMeta then [.saveMeta c.metaFails] else []) ++ [.saveInfo c.infoFails])
     { initSt old m i with tmp := true, owned := true }
   rw [hr]
   cases hab : allBytes c.frames with
   | none => simp [cleanup, initSt]
   | some all =>
-    rcases h with h | h | h
+    rcases h with h | h | h | h
     · rw [hab] at h; cases h
-    · rw [h]; cases c.renameFails <;> cases c.hasMeta <;> cases c.metaFails <;> cases c.infoFails <;>
-        simp [run, exec, cleanup, initSt]
-    · rw [h]; cases c.checksumsEqual <;> cases c.hasMeta <;> cases c.metaFails <;> cases c.infoFails <;>
-        simp [run, exec, cleanup, initSt]
+    · rw [h]; cases c.mkdirsFails <;> cases c.renameFails <;> cases c.hasMeta <;> cases c.metaFails <;>
+        cases c.infoFails <;> simp [run, exec, cleanup, initSt]
+    · rw [h]; cases c.checksumsEqual <;> cases c.renameFails <;> cases c.hasMeta <;> cases c.metaFails <;>
+        cases c.infoFails <;> simp [run, exec, cleanup, initSt]
+    · rw [h]; cases c.checksumsEqual <;> cases c.mkdirsFails <;> cases c.hasMeta <;> cases c.metaFails <;>
+        cases c.infoFails <;> simp [run, exec, cleanup, initSt]
 
 /-- **A successful `put_object` stores everything.** No fault: the answer is OK, the destination holds all body
     bytes, the checksum record is new, the metadata is new iff the request carried metadata, no temporary file. -/
 theorem C19_successful_write_complete (c : Cfg) (old : Option Bytes) (m i : Side) (all : Bytes)
     (hb : allBytes c.frames = some all) (h1 : c.checksumsEqual = true) (h2 : c.renameFails = false)
-    (h3 : c.metaFails = false) (h4 : c.infoFails = false) :
+    (h3 : c.metaFails = false) (h4 : c.infoFails = false) (h5 : c.mkdirsFails = false) :
     (run (putObjectProg c) (initSt old m i)).1 = .ok ∧
     (run (putObjectProg c) (initSt old m i)).2.dest = some all ∧
     (run (putObjectProg c) (initSt old m i)).2.tmp = false ∧
@@ -120,10 +128,10 @@ theorem C19_successful_write_complete (c : Cfg) (old : Option Bytes) (m i : Side
   rw [putObjectProg_eq]
   simp only [run, exec]
   obtain ⟨p, a, hr⟩ := run_frames c.frames
-    ([.flush, .check c.checksumsEqual, .mkdirs, .rename c.renameFails] ++
+    ([.flush, .check c.checksumsEqual, .mkdirs c.mkdirsFails, .rename c.renameFails] ++
       (if c.hasMeta then [.saveMeta c.metaFails] else []) ++ [.saveInfo c.infoFails])
     { initSt old m i with tmp := true, owned := true }
-  rw [hr, hb, h1, h2, h3, h4]
+  rw [hr, hb, h1, h2, h3, h4, h5]
   cases c.hasMeta <;> simp [run, exec, cleanup, initSt]
 
 /-- **All-or-nothing for `upload_part`** (destination = the part file), every fault position but `DropAtCreate`. -/
@@ -131,10 +139,10 @@ theorem C19_upload_part_all_or_nothing (c : Cfg) (old : Option Bytes) (m i : Sid
     let s := dropAfter k (uploadPartProg c) (initSt old m i)
     s.tmp = false ∧ (s.dest = old ∨ ∃ all, allBytes c.frames = some all ∧ s.dest = some all) ∧
       (k ≤ c.frames.length + 4 → s.dest = old) := by
-  have e : uploadPartProg c = .create :: .adopt :: (c.frames.map .frame ++ [.flush, .mkdirs, .rename c.renameFails]) := by
+  have e : uploadPartProg c = .create :: .adopt :: (c.frames.map .frame ++ [.flush, .mkdirs c.mkdirsFails, .rename c.renameFails]) := by
     simp [uploadPartProg]
   simp only [dropAfter_eq, e]
-  rcases create_adopt_then (rest := c.frames.map .frame ++ [.flush, .mkdirs, .rename c.renameFails])
+  rcases create_adopt_then (rest := c.frames.map .frame ++ [.flush, .mkdirs c.mkdirsFails, .rename c.renameFails])
       (s := initSt old m i) ⟨rfl, rfl⟩ k hk with ⟨_, h⟩ | ⟨k', rfl, h⟩
   · rw [h]; simp [initSt]
   · rw [h]
@@ -154,7 +162,7 @@ theorem C19_complete_all_or_nothing (c : Cfg) (old : Option Bytes) (m i : Side) 
     s.tmp = false ∧ (s.dest = old ∨ ∃ all, allParts c.parts = some all ∧ s.dest = some all) ∧
       (k ≤ c.parts.length + 5 → s.dest = old) := by
   have e : completeProg c = .consume :: .moveMeta c.hasMeta c.metaFails :: .create :: .adopt ::
-      (c.parts.map .part ++ [.mkdirs, .rename c.renameFails]) := by
+      (c.parts.map .part ++ [.mkdirs c.mkdirsFails, .rename c.renameFails]) := by
     simp [completeProg]
   simp only [dropAfter_eq, e]
   rcases k with _ | _ | _ | _ | k
@@ -179,6 +187,61 @@ theorem C19_complete_all_or_nothing (c : Cfg) (old : Option Bytes) (m i : Side) 
          rcases h2 with h2 | ⟨all, ha, h2⟩
          · exact .inl h2
          · exact .inr ⟨all, ha, by simpa [initSt] using h2⟩)
+
+/-- **`done()` is guarded to its end.** For all three writing operations: if `create_dir_all(parent)` fails (a parent
+    of the destination is a plain file) or the rename fails (the destination is a directory), the call answers an
+    error, the destination is untouched and the temporary file is gone — the `Drop` guard is disarmed only after
+    the rename succeeded. -/
+theorem C19_done_failure_guarded (c : Cfg) (old : Option Bytes) (m i : Side)
+    (h : c.mkdirsFails = true ∨ c.renameFails = true) :
+    ∀ prog ∈ [putObjectProg c, uploadPartProg c, completeProg c],
+      (run prog (initSt old m i)).1 ≠ .ok ∧ (run prog (initSt old m i)).2.dest = old ∧
+      (run prog (initSt old m i)).2.tmp = false := by
+  intro prog hp
+  simp only [List.mem_cons, List.not_mem_nil, or_false] at hp
+  rcases hp with rfl | rfl | rfl
+  · have := C19_failed_upload_changes_nothing c old m i (.inr (.inr h))
+    exact ⟨this.1, this.2.1, this.2.2.1⟩
+  · have e : uploadPartProg c = .create :: .adopt ::
+        (c.frames.map .frame ++ [.flush, .mkdirs c.mkdirsFails, .rename c.renameFails]) := by
+      simp [uploadPartProg]
+    rw [e]
+    simp only [run, exec]
+    obtain ⟨p, a, hr⟩ := run_frames c.frames [.flush, .mkdirs c.mkdirsFails, .rename c.renameFails]
+      { initSt old m i with tmp := true, owned := true }
+    rw [hr]
+    cases allBytes c.frames with
+    | none => simp [cleanup, initSt]
+    | some all =>
+      rcases h with h | h <;> rw [h]
+      · cases c.renameFails <;> simp [run, exec, cleanup, initSt]
+      · cases c.mkdirsFails <;> simp [run, exec, cleanup, initSt]
+  · have e : completeProg c = .consume :: .moveMeta c.hasMeta c.metaFails :: .create :: .adopt ::
+        (c.parts.map .part ++ [.mkdirs c.mkdirsFails, .rename c.renameFails]) := by
+      simp [completeProg]
+    rw [e]
+    cases hm : c.hasMeta <;> cases hf : c.metaFails <;> simp only [run, exec, Bool.not_false, Bool.not_true,
+      Bool.false_eq_true, ↓reduceIte]
+    all_goals first
+      | (simp [cleanup, initSt]; done)
+      | (obtain ⟨p, a, code, hcode, hr⟩ := run_parts c.parts [.mkdirs c.mkdirsFails, .rename c.renameFails]
+           { initSt old m i with uploadRec := false, tmp := true, owned := true }
+         rw [hr]
+         cases allParts c.parts with
+         | none => simp [cleanup, initSt, hcode]
+         | some all =>
+           rcases h with h | h <;> rw [h]
+           · cases c.renameFails <;> simp [run, exec, cleanup, initSt]
+           · cases c.mkdirsFails <;> simp [run, exec, cleanup, initSt])
+      | (obtain ⟨p, a, code, hcode, hr⟩ := run_parts c.parts [.mkdirs c.mkdirsFails, .rename c.renameFails]
+           { initSt old m i with uploadRec := false, mdata := .new, tmp := true, owned := true }
+         rw [hr]
+         cases allParts c.parts with
+         | none => simp [cleanup, initSt, hcode]
+         | some all =>
+           rcases h with h | h <;> rw [h]
+           · cases c.renameFails <;> simp [run, exec, cleanup, initSt]
+           · cases c.mkdirsFails <;> simp [run, exec, cleanup, initSt])
 
 /-- **Concurrent writers: exactly one writer's bytes.** `n` writers (any `n`, each with any frames) put to one
     key; the scheduler interleaves their atomic steps (draw a counter value — `fetch_add`; create the temporary
@@ -230,8 +293,14 @@ example : (dropAfter 4 (putObjectProg { frames := [.ok [97, 98], .ok [99]] }) (i
     = some [122] := by decide
 example : (run (putObjectProg { frames := [.ok [97, 98], .ok [99]], hasMeta := true }) (initSt (some [122]) .old .old))
     = (.ok, { dest := some [97, 98, 99], tmp := false, owned := false, acc := [97, 98, 99], mdata := .new, info := .new,
-              uploadRec := true, partsGone := 0, pulled := 2 }) := by decide
+              uploadRec := true, partsGone := 0, pulled := 2, dirs := true }) := by decide
 example : ¬ DropAtCreate 4 := by decide
+/-- dropped between `create_dir_all` and the rename (position n + 5 = 7): previous content, no temporary file -/
+example : (dropAfter 7 (putObjectProg { frames := [.ok [97, 98], .ok [99]] }) (initSt (some [122]) .old .old)).tmp
+    = false := by decide
+/-- `create_dir_all` fails: error, previous content, no temporary file -/
+example : (run (putObjectProg { frames := [.ok [97]], mkdirsFails := true }) (initSt none .absent .absent)).2.tmp
+    = false := by decide
 /-- two writers, a schedule in which both finish: the second rename wins -/
 example : (runSched (initWorld none [[[1], [2]], [[3]]]) [0, 1, 0, 1, 0, 1, 0, 1, 0, 0]).dest = some [1, 2] := by
   decide
